@@ -50,6 +50,9 @@ type (
 	}
 )
 
+type EStr struct{ V string }
+
+func (e *EStr) String() string   { return "\"" + e.V + "\"" }
 func (e *EInt) String() string   { return e.V }
 func (e *EIdent) String() string { return e.Name }
 func (e *EBin) String() string   { return "(" + e.L.String() + " " + e.Op + " " + e.R.String() + ")" }
@@ -109,6 +112,16 @@ func lexExpr(s string) ([]etok, error) {
 			}
 			toks = append(toks, etok{"int", strings.ReplaceAll(s[i:j], "_", "")})
 			i = j
+		case c == '"':
+			j := i + 1
+			for j < len(s) && s[j] != '"' {
+				j++
+			}
+			if j >= len(s) {
+				return nil, fmt.Errorf("unterminated string literal in %q", s)
+			}
+			toks = append(toks, etok{"str", s[i+1 : j]})
+			i = j + 1
 		case unicode.IsLetter(rune(c)) || c == '_' || c == '$':
 			j := i
 			for j < len(s) && (unicode.IsLetter(rune(s[j])) || unicode.IsDigit(rune(s[j])) || s[j] == '_' || s[j] == '$') {
@@ -355,6 +368,8 @@ func (p *eparser) prim() Expr {
 	switch t.kind {
 	case "int":
 		return &EInt{t.text}
+	case "str":
+		return &EStr{t.text}
 	case "id":
 		return &EIdent{t.text}
 	case "op":
